@@ -19,7 +19,7 @@ import (
 )
 
 type vpOp struct {
-	K string `json:"k"`           // WB WY WR WS WW FL | RB PK DC RY RS RD | RL RU CL | OA OF OX
+	K string `json:"k"`           // WB WY WR WS WW FL WA | RB PK DC RY RS RD | RL RU CL | OA OF OX
 	A int    `json:"a,omitempty"` // absolute start index of the written bytes / slot index / tag
 	N int    `json:"n"`           // size
 }
@@ -273,6 +273,17 @@ func (p *vpipe) exec(idx int, op vpOp) bool {
 			ob.N = n
 		case "FL":
 			p.vpFlush()
+		case "WA":
+			// the state Stream.ReleaseReadAndReuse leaves in the send position: one reset shm slice that is
+			// both the only slice and the write slice, Len() == 0 (cf. newLinkedBufferWithSlice in buffer_test.go)
+			ob.N = 0
+			if w.sliceList.size() == 0 && w.sliceList.writeSlice == nil {
+				if b, e := p.bm.allocShmBuffer(uint32(op.N)); e == nil {
+					w.sliceList.pushBack(b)
+					w.sliceList.writeSlice = b
+					ob.N = 1
+				}
+			}
 		case "RB":
 			data, err = r.ReadBytes(op.N)
 			hasData = true
@@ -612,7 +623,7 @@ func vpGenCase(rng *vrand, id int, mode string) *vpCase {
 		if mode == "c08" {
 			wth, oth = 25, 30
 		}
-		// an empty slice inside a flushed shm chain (Reserve(0) allocates a slot, a larger Reserve skips it):
+		// an empty slice inside a flushed shm chain (the reset slice adopted from ReleaseReadAndReuse, skipped by a larger Reserve):
 		// exercises moveTo's unlinking of empty slices, at the front of the list and behind unread data
 		if x < 6 && p.snd.sendBuf.sliceList.writeSlice == nil && !p.snd.inFallbackState {
 			room := 0
@@ -623,7 +634,7 @@ func vpGenCase(rng *vrand, id int, mode string) *vpCase {
 			}
 			if room >= 3 {
 				n := caps[0] + 1 + rng.intn(3)
-				ok := run(vpOp{K: "WR", A: p.wabs, N: 0}) && run(vpOp{K: "WR", A: p.wabs, N: n})
+				ok := run(vpOp{K: "WA", N: caps[0]}) && run(vpOp{K: "WR", A: p.wabs, N: n})
 				p.wabs += n
 				if !ok || !run(vpOp{K: "FL"}) {
 					return c
